@@ -66,7 +66,7 @@ Fixpoint gen_pure (cp : comm -> Z) (r : rule) (payee : str) (xstate : pstate) (i
   match init with
   | [] => Ok []
   | ip :: rest =>
-      if p_generated (x_post ip) then gen_pure cp r payee xstate rest
+      if rule_made (x_post ip) then gen_pure cp r payee xstate rest
       else
         do b <- pred_eval payee (x_post ip) (r_pred r);
         if b then
@@ -99,7 +99,7 @@ Lemma extend_loop_pure cp r payee st : forall init rs,
 Proof.
   induction init as [|ip rest IH]; intros rs Hm; cbn [extend_loop gen_pure].
   - split; [reflexivity | exact Hm].
-  - destruct (p_generated (x_post ip)); [apply IH; exact Hm|].
+  - destruct (rule_made (x_post ip)); [apply IH; exact Hm|].
     destruct (match_post_sound r rs payee (x_post ip) Hm) as [Hv Hm1].
     destruct (match_post r rs payee (x_post ip)) as [mb rs1]. cbn [fst snd] in Hv, Hm1.
     rewrite <- Hv. destruct mb as [[|]|e]; cbn [bind].
@@ -192,7 +192,7 @@ Qed.
 Definition matchesb (r : rule) (payee : str) (x : xpost) : bool :=
   match pred_eval payee (x_post x) (r_pred r) with Ok true => true | _ => false end.
 
-Definition not_generated (x : xpost) : bool := negb (p_generated (x_post x)).
+Definition not_generated (x : xpost) : bool := negb (rule_made (x_post x)).
 
 (* the postings a rule fires on: the non-generated ones that match, in posting order *)
 Definition candidates (r : rule) (payee : str) (ps : list xpost) : list xpost :=
@@ -243,7 +243,7 @@ Proof.
   unfold contribution, candidates.
   induction init as [|ip rest IH]; intros new; cbn [gen_pure filter flat_map].
   - intros [= <-]. reflexivity.
-  - unfold not_generated at 1. destruct (p_generated (x_post ip)); cbn [negb]; [apply IH|].
+  - unfold not_generated at 1. destruct (rule_made (x_post ip)); cbn [negb]; [apply IH|].
     cbn [filter]. unfold matchesb at 1.
     destruct (pred_eval payee (x_post ip) (r_pred r)) as [[|]|e]; cbn [bind]; [| apply IH | discriminate].
     destruct (inst_lines cp st (x_post ip) (r_lines r)) as [n1|] eqn:E1; cbn [bind]; [|discriminate].
@@ -278,11 +278,11 @@ Qed.
 
 (* ------------------------------------------------------------ generated postings never match *)
 
-Lemma inst_post_generated cp st ip l : p_generated (x_post (inst_post cp st ip l)) = true.
+Lemma inst_post_generated cp st ip l : rule_made (x_post (inst_post cp st ip l)) = true.
 Proof. reflexivity. Qed.
 
 Lemma contribution_generated cp st r payee ps x :
-  In x (contribution cp st r payee ps) -> p_generated (x_post x) = true.
+  In x (contribution cp st r payee ps) -> rule_made (x_post x) = true.
 Proof.
   unfold contribution. intros H. apply in_flat_map in H as [y [_ Hy]].
   apply in_map_iff in Hy as [l [<- _]]. reflexivity.
@@ -297,7 +297,7 @@ Proof.
 Qed.
 
 Lemma candidates_app_generated r payee ps new :
-  (forall x, In x new -> p_generated (x_post x) = true) ->
+  (forall x, In x new -> rule_made (x_post x) = true) ->
   candidates r payee (ps ++ new) = candidates r payee ps.
 Proof.
   intros H. unfold candidates. rewrite (filter_app_none not_generated ps new); [reflexivity|].
@@ -305,7 +305,7 @@ Proof.
 Qed.
 
 Lemma contribution_app_generated cp st r payee ps new :
-  (forall x, In x new -> p_generated (x_post x) = true) ->
+  (forall x, In x new -> rule_made (x_post x) = true) ->
   contribution cp st r payee (ps ++ new) = contribution cp st r payee ps.
 Proof. intros H. unfold contribution. rewrite (candidates_app_generated _ _ _ _ H). reflexivity. Qed.
 
@@ -318,7 +318,7 @@ Theorem extend_all_pure_spec ord cp payee st : forall rules ps ps',
 Proof.
   intros rules ps.
   assert (G : forall rules extra ps',
-             (forall x, In x extra -> p_generated (x_post x) = true) ->
+             (forall x, In x extra -> rule_made (x_post x) = true) ->
              extend_all_pure ord cp rules payee st (ps ++ extra) = Ok ps' ->
              ps' = (ps ++ extra) ++ flat_map (fun r => contribution cp st r payee ps) rules).
   { induction rules0 as [|r rest IH]; intros extra ps' Hg; cbn [extend_all_pure flat_map].
@@ -344,13 +344,13 @@ Qed.
 
 (* a rule without a matching non-generated posting leaves the transaction alone *)
 Theorem no_match_untouched ord cp r payee st ps :
-  (forall x, In x ps -> p_generated (x_post x) = false -> pred_eval payee (x_post x) (r_pred r) = Ok false) ->
+  (forall x, In x ps -> rule_made (x_post x) = false -> pred_eval payee (x_post x) (r_pred r) = Ok false) ->
   extend_pure ord cp r payee st ps = Ok ps.
 Proof.
   intros H. unfold extend_pure.
   assert (G : gen_pure cp r payee st ps = Ok []).
   { induction ps as [|ip rest IH]; cbn [gen_pure]; [reflexivity|].
-    destruct (p_generated (x_post ip)) eqn:Hg.
+    destruct (rule_made (x_post ip)) eqn:Hg.
     - apply IH. intros x Hx. apply H. right. exact Hx.
     - rewrite (H ip (or_introl eq_refl) Hg). cbn [bind]. apply IH. intros x Hx. apply H. right. exact Hx. }
   rewrite G. cbn [bind]. unfold finish. cbn [existsb]. rewrite app_nil_r. reflexivity.
@@ -401,10 +401,10 @@ Theorem multiplier_exact cp st ip l x ra ia :
   instantiate cp st ip l = Ok x -> rl_amt l = Some ra -> acomm ra = None -> p_amt ip = Some ia ->
   exists a, p_amt (x_post x) = Some a /\ aq a == aq ia * aq ra /\ acomm a = acomm ia /\ akeep a = akeep ia /\
             p_acct (x_post x) = rl_acct l /\ p_kind (x_post x) = rl_kind l /\
-            p_generated (x_post x) = true /\ p_cost (x_post x) = None.
+            rule_made (x_post x) = true /\ p_cost (x_post x) = None.
 Proof.
   unfold instantiate. intros H Hra Hc Hia. rewrite Hra, Hc, Hia in H. cbn [bind] in H. injection H as <-.
-  cbn [x_post p_amt p_acct p_kind p_generated p_cost]. eexists. split; [reflexivity|].
+  unfold rule_made. cbn [x_post p_amt p_acct p_kind p_generated p_calculated p_cost negb andb]. eexists. split; [reflexivity|].
   split; [apply amt_mul_exact|]. unfold amt_mul. cbn [acomm akeep].
   split; [|repeat split]. destruct (acomm ia); [reflexivity | exact Hc].
 Qed.
@@ -412,7 +412,7 @@ Qed.
 Theorem fixed_as_written cp st ip l x ra c :
   instantiate cp st ip l = Ok x -> rl_amt l = Some ra -> acomm ra = Some c ->
   p_amt (x_post x) = Some ra /\ p_acct (x_post x) = rl_acct l /\ p_kind (x_post x) = rl_kind l /\
-  p_generated (x_post x) = true.
+  rule_made (x_post x) = true.
 Proof.
   unfold instantiate. intros H Hra Hc. rewrite Hra, Hc in H. cbn [bind] in H. injection H as <-.
   repeat split.
@@ -621,4 +621,158 @@ Theorem pred_connectives payee p q r bq br :
   pred_eval payee p (POr q r) = Ok (bq || br).
 Proof.
   intros Hq Hr. cbn [pred_eval]. rewrite Hq, Hr. cbn [bind]. destruct bq; repeat split; reflexivity.
+Qed.
+
+(* ------------------------------------------------------------ every posting of the user is matched *)
+
+(* nothing finalize returns looks rule-made: the postings it creates for the further
+   commodities of an elided amount are flagged calculated as well as generated *)
+Definition user_made (p : post) : Prop := rule_made p = false.
+
+Lemma user_made_written p : p_generated p = false -> user_made p.
+Proof. intros H. unfold user_made, rule_made. rewrite H. reflexivity. Qed.
+
+Lemma apply_rate_user ord cp rate c : forall ps bal ps' bal',
+  Forall user_made ps -> apply_rate ord cp rate c ps bal = Ok (ps', bal') -> Forall user_made ps'.
+Proof.
+  induction ps as [|p ps IH]; intros bal ps' bal' Hu; cbn [apply_rate].
+  - intros [= <- <-]. constructor.
+  - inversion Hu as [|q l Hp Hps]; subst.
+    assert (K : forall b r, apply_rate ord cp rate c ps b = Ok r -> Forall user_made (fst r)).
+    { intros b [x y] E. apply (IH _ _ _ Hps E). }
+    destruct (p_amt p) as [amt|].
+    + destruct (must_balance p && comm_eqb (acomm amt) c).
+      * destruct (v_sub ord bal (VAmt amt)) as [b1|]; cbn [bind]; [|discriminate].
+        destruct (v_add ord b1 (VAmt (amt_mul cp rate amt))) as [b2|]; cbn [bind]; [|discriminate].
+        destruct (apply_rate ord cp rate c ps b2) as [r|] eqn:E; cbn [bind]; [|discriminate].
+        intros [= <- <-]. constructor; [exact Hp | apply (K _ _ E)].
+      * destruct (apply_rate ord cp rate c ps bal) as [r|] eqn:E; cbn [bind]; [|discriminate].
+        intros [= <- <-]. constructor; [exact Hp | apply (K _ _ E)].
+    + destruct (apply_rate ord cp rate c ps bal) as [r|] eqn:E; cbn [bind]; [|discriminate].
+      intros [= <- <-]. constructor; [exact Hp | apply (K _ _ E)].
+Qed.
+
+Lemma infer_rate_user ord cp ps bal nul ps' bal' :
+  Forall user_made ps -> infer_rate ord cp ps bal nul = Ok (ps', bal') -> Forall user_made ps'.
+Proof.
+  intros Hu. unfold infer_rate.
+  assert (Id : Ok (ps, bal) = Ok (ps', bal') -> Forall user_made ps') by (intros [= <- <-]; exact Hu).
+  destruct nul; [exact Id|]. destruct bal as [| | | |b]; try exact Id.
+  destruct b as [|x0 [|y0 [|z b]]]; try exact Id.
+  destruct (find_top ps None) as [[tp|] [|]]; try exact Id.
+  destruct (negb (is_zero cp x0) && negb (is_zero cp y0)); [|exact Id].
+  destruct (comm_eqb (acomm x0) match p_amt tp with Some a => acomm a | None => None end).
+  - destruct (amt_div cp y0 x0) as [q|]; cbn [bind]; [|discriminate]. apply apply_rate_user. exact Hu.
+  - destruct (amt_div cp x0 y0) as [q|]; cbn [bind]; [|discriminate]. apply apply_rate_user. exact Hu.
+Qed.
+
+Lemma exchange_posts_user ord cp : forall ps bal ps' bal',
+  Forall user_made ps -> exchange_posts ord cp ps bal = Ok (ps', bal') -> Forall user_made ps'.
+Proof.
+  induction ps as [|p ps IH]; intros bal ps' bal' Hu; cbn [exchange_posts].
+  - intros [= <- <-]. constructor.
+  - inversion Hu as [|q l Hp Hps]; subst.
+    assert (K : forall b r, exchange_posts ord cp ps b = Ok r -> Forall user_made (fst r)).
+    { intros b [x y] E. apply (IH _ _ _ Hps E). }
+    assert (Same : forall b, (do r <- exchange_posts ord cp ps b; Ok (p :: fst r, snd r)) = Ok (ps', bal') ->
+                             Forall user_made ps').
+    { intros b. destruct (exchange_posts ord cp ps b) as [r|] eqn:E; cbn [bind]; [|discriminate].
+      intros [= <- <-]. constructor; [exact Hp | apply (K _ _ E)]. }
+    destruct (p_amt p) as [amt|]; [|apply Same]. destruct (p_cost p) as [cost|]; [|apply Same].
+    destruct (comm_eqb (acomm amt) (acomm cost)); [discriminate|].
+    destruct (p_lotprice p) as [lp|]; [|apply Same].
+    cbv zeta. destruct (comm_eqb _ (acomm cost)); [|apply Same].
+    destruct (amt_sub _ cost) as [gl|]; cbn [bind]; [|discriminate].
+    destruct (is_zero cp gl); [apply Same|].
+    destruct (if must_balance p then add_or_set ord bal (unkeep gl) else Ok bal) as [b1|]; cbn [bind]; [|discriminate].
+    destruct (amt_add cost (unkeep gl)) as [c1|]; cbn [bind]; [|discriminate].
+    destruct (exchange_posts ord cp ps b1) as [r|] eqn:E; cbn [bind]; [|discriminate].
+    intros [= <- <-]. constructor; [exact Hp | apply (K _ _ E)].
+Qed.
+
+Lemma set_null_user : forall ps i a, Forall user_made ps -> Forall user_made (set_null ps i a).
+Proof.
+  induction ps as [|p ps IH]; intros i a Hu; cbn [set_null]; [constructor|].
+  inversion Hu as [|q l Hp Hps]; subst. destruct i.
+  - constructor; [|exact Hps]. unfold user_made, rule_made. cbn. apply andb_false_r.
+  - constructor; [exact Hp | apply IH; exact Hps].
+Qed.
+
+Lemma fill_null_user ps i amts : Forall user_made ps -> Forall user_made (fill_null ps i amts).
+Proof.
+  intros Hu. unfold fill_null. destruct amts as [|a rest]; [exact Hu|].
+  apply Forall_app. split; [apply set_null_user; exact Hu|].
+  apply Forall_forall. intros x Hx. apply in_map_iff in Hx as [y [<- _]]. reflexivity.
+Qed.
+
+Lemma finalize_rest_user ord cp ps bal nul out :
+  Forall user_made ps -> finalize_rest ord cp ps bal nul = Ok (Accepted out) -> Forall user_made out.
+Proof.
+  intros Hu. unfold finalize_rest.
+  destruct (infer_rate ord cp ps bal nul) as [[p1 b1]|] eqn:E1; cbn [bind fst snd]; [|discriminate].
+  pose proof (infer_rate_user _ _ _ _ _ _ _ Hu E1) as H1.
+  destruct (exchange_posts ord cp p1 b1) as [[p2 b2]|] eqn:E2; cbn [bind]; [|discriminate].
+  pose proof (exchange_posts_user _ _ _ _ _ _ H1 E2) as H2.
+  assert (H3 : forall r, (match nul with
+                          | Some i => do amts <- fill_amounts b2; Ok (fill_null p2 i amts, VVoid)
+                          | None => Ok (p2, b2)
+                          end) = Ok r -> Forall user_made (fst r)).
+  { intros r. destruct nul as [i|].
+    - destruct (fill_amounts b2) as [amts|]; cbn [bind]; [|discriminate]. intros [= <-]. apply fill_null_user. exact H2.
+    - intros [= <-]. exact H2. }
+  destruct (match nul with Some i => _ | None => _ end) as [[p4 b4]|]; cbn [bind]; [|discriminate].
+  specialize (H3 _ eq_refl). cbn [fst] in H3.
+  destruct (negb (v_is_zero cp b4)); [discriminate|].
+  destruct (forallb _ p4); [discriminate|]. destruct (existsb _ p4); [discriminate|].
+  intros [= <-]. exact H3.
+Qed.
+
+Theorem finalize_user_made ord cp bucket ps out :
+  (forall p, In p ps -> p_generated p = false) ->
+  finalize ord cp bucket ps = Ok (Accepted out) -> Forall user_made out.
+Proof.
+  intros Hw. assert (Hu : Forall user_made ps).
+  { apply Forall_forall. intros p Hp. apply user_made_written, Hw, Hp. }
+  unfold finalize. destruct (scan_posts ord ps 0 VVoid None) as [[bal0 nul0]|]; cbn [bind]; [|discriminate].
+  assert (Hb : forall b, Forall user_made (ps ++ [mkPost b PReal None None None false false false])).
+  { intros b. apply Forall_app. split; [exact Hu|]. constructor; [reflexivity | constructor]. }
+  destruct bucket as [b|]; [|apply finalize_rest_user; exact Hu].
+  destruct ps as [|p0 [|p1 ps]]; try (apply finalize_rest_user; exact Hu).
+  destruct bal0; apply finalize_rest_user; try exact Hu; apply Hb.
+Qed.
+
+Lemma filter_all_true {A} (f : A -> bool) l : (forall x, In x l -> f x = true) -> filter f l = l.
+Proof.
+  induction l as [|x l IH]; intros H; cbn [filter]; [reflexivity|].
+  rewrite (H x (or_introl eq_refl)), IH; [reflexivity|]. intros y Hy. apply H. right. exact Hy.
+Qed.
+
+Lemma annotate_cost_flags cp p : rule_made (annotate_cost cp p) = rule_made p.
+Proof.
+  unfold annotate_cost. destruct (p_amt p) as [a|]; [|reflexivity]. destruct (p_cost p); [|reflexivity].
+  destruct (is_annotated a || negb (has_comm a)); reflexivity.
+Qed.
+
+(* the full statement of C16 for a journal: EVERY posting of the finalized transaction that
+   matches a rule written before it - written or made by finalize from an elided amount -
+   receives one posting per rule line.  (Before /repo e69e5ce the postings finalize makes for the
+   2nd and later commodities of an elided amount were skipped: `= /C/ (B) 1` before
+   `F $10.00 / F 5.00 EUR / C` gave (B) $-10.00 only.) *)
+Theorem journal_extension_every_posting ord pl ds1 t ds2 xs :
+  let cp := cp_of (learn_posts (pool_after pl ds1) (t_posts t)) in
+  (forall p, In p (t_posts t) -> p_generated p = false) ->
+  nth_error (process ord pl [] (ds1 ++ DTxn t :: ds2)) (length (process ord pl [] ds1)) = Some (Ok (XAccepted xs)) ->
+  exists ps, finalize ord cp None (t_posts t) = Ok (Accepted ps) /\
+    let base := lift (t_state t) (map (annotate_cost cp) ps) in
+    xs = base ++ flat_map (fun r => flat_map (fun x => map (inst_post cp (t_state t) (x_post x)) (r_lines r))
+                                             (filter (matchesb r (t_payee t)) base)) (rules_in ds1).
+Proof.
+  intros cp Hw H. destruct (journal_extension_spec ord pl ds1 t ds2 xs H) as [ps [Hf Hx]].
+  exists ps. split; [exact Hf|]. cbv zeta in *. rewrite Hx. f_equal.
+  pose proof (finalize_user_made _ _ _ _ _ Hw Hf) as Hu. rewrite Forall_forall in Hu.
+  apply flat_map_ext. intros r. unfold contribution, candidates.
+  rewrite (filter_all_true not_generated); [reflexivity|].
+  intros x Hx'. unfold lift in Hx'. apply in_map_iff in Hx' as [p [<- Hp]].
+  apply in_map_iff in Hp as [q [<- Hq]]. unfold not_generated. cbn [x_post].
+  rewrite annotate_cost_flags, (Hu q Hq). reflexivity.
 Qed.
